@@ -108,6 +108,10 @@ def hs_ttcfg_crash(case, io):
 
 
 def classify(case, io, mo):
+    if case.get("expect_ok"):
+        # regression corpus: recorded as handled correctly by the unchanged tree under hash seeds 0-3
+        # (tools/okcorpus.py); a failure now is a regression whatever its shape
+        return None
     if hs_ttcfg_crash(case, io):
         return "c02_heap_search_ttcfg_incomplete"
     if case["enum"] == "bs" and case["weights"]["kind"] != "uniform" and isinstance(io, dict) \
